@@ -162,6 +162,16 @@ MUTS = [
   "            reset += 'TF'\n", "            reset += 'T'\n"),
  ('M69 select: the subarray comparison dropped from the time base', 'katdal/dataset.py',
   "            self._time_keep &= (self.sensor.get('Observation/subarray_index') == subarray)\n", ""),
+ ('M70 select: a change of subarray restarts the product axis only', 'katdal/dataset.py',
+  "            reset += 'TB'\n", "            reset += 'B'\n"),
+ ('M71 select: corr_products always those of subarray 0', 'katdal/dataset.py',
+  "self.corr_products = self.subarrays[self.subarray].corr_products[self._corrprod_keep]",
+  "self.corr_products = self.subarrays[0].corr_products[self._corrprod_keep]"),
+ ('M72 select: dumps restricted to the active SUBARRAY only when the subarray changes (window half left alone)', 'katdal/dataset.py',
+  "        if subarray != self.subarray:\n            reset += 'TB'\n            self.subarray = subarray\n        # Reset the selection flags on the appropriate dimensions\n        if 'T' in reset:\n            self._time_keep[:] = True\n            self._time_keep &= (self.sensor.get('Observation/spw_index') == spw)\n            self._time_keep &= (self.sensor.get('Observation/subarray_index') == subarray)\n            for key in time_selectors:\n                self._selection.pop(key, None)\n",
+  "        sub_changed = subarray != self.subarray\n        if sub_changed:\n            reset += 'TB'\n            self.subarray = subarray\n        # Reset the selection flags on the appropriate dimensions\n        if 'T' in reset:\n            self._time_keep[:] = True\n            self._time_keep &= (self.sensor.get('Observation/spw_index') == spw)\n            for key in time_selectors:\n                self._selection.pop(key, None)\n        if sub_changed:\n            self._time_keep &= (self.sensor.get('Observation/subarray_index') == subarray)\n"),
+ ('M73 concatenation: spw_index of the parts not remapped to the merged windows', 'katdal/concatdata.py',
+  "            d.sensor['Observation/spw_index'] = CategoricalData(split_spw[n].indices, split_spw[n].events)\n", ""),
 ]
 only = sys.argv[1:]
 res = []
